@@ -15,6 +15,22 @@ E1_TECH = ('bounded symbolic execution of the real yatiml/PyYAML code with '
            'bounds), counterexamples replayed on the unstubbed public API')
 
 CHECKS = {
+    'C01': dict(
+        text='Bounded model checking of the real load pipeline driven through '
+             'the public load function (composer stubbed): for 16 class '
+             'models, every single-point mutation of valid base documents, '
+             'with a free symbolic tag, palette (tag, value) pairs, '
+             'collection shapes and keys, and the empty stream; the returned '
+             'value and every recorded __init__ call are checked against the '
+             'declared types by an independent conformance oracle.',
+        design='4/C01'),
+    'C08': dict(
+        text='Same symbolic document space as C01 plus self-referential '
+             'alias graphs; the assertion is that the load returns or raises '
+             'RecognitionError/YAMLError only (malformed values under explicit '
+             'core tags, duplicate and complex keys, merge keys, raising '
+             'constructors/string-likes/savorize hooks, cycles).',
+        design='4/C08'),
     'C09': dict(
         engine='E2-z3-regex',
         text='Decided for strings of every length: the implicit-resolver '
